@@ -3,6 +3,7 @@
 package cache
 
 import (
+	"errors"
 	"os"
 	"strconv"
 	"syscall"
@@ -41,4 +42,30 @@ func verifPoint(point, path string, contents []byte) {
 	}
 	_ = syscall.Kill(os.Getpid(), syscall.SIGKILL)
 	select {}
+}
+
+// VerifWriteError, when set, is asked before every write of the cache file whether that write is to
+// fail (the file is then left untouched, as when it cannot be opened for writing).
+var VerifWriteError func(path string) error
+
+var verifWrites int
+
+// verifWriteError injects a write error: through VerifWriteError, or, with
+// SPOK_VERIF_WRITE_ERROR=<k> in the environment, at the k-th write of the cache file (1-based);
+// with SPOK_VERIF_WRITE_ERROR_FROM=<k>, at the k-th write and every later one (a cache file that
+// has become unwritable).
+func verifWriteError(path string) error {
+	if VerifWriteError != nil {
+		if err := VerifWriteError(path); err != nil {
+			return err
+		}
+	}
+	verifWrites++
+	if k, err := strconv.Atoi(os.Getenv("SPOK_VERIF_WRITE_ERROR")); err == nil && k > 0 && verifWrites == k {
+		return errors.New("permission denied (injected)")
+	}
+	if k, err := strconv.Atoi(os.Getenv("SPOK_VERIF_WRITE_ERROR_FROM")); err == nil && k > 0 && verifWrites >= k {
+		return errors.New("permission denied (injected)")
+	}
+	return nil
 }
